@@ -343,6 +343,11 @@ func (fr *Frame) doCall(c ssa.CallInstruction, st *State, args []Term, recv *Ter
 	}
 	if ci.contract != nil {
 		fe.usedContracts[ci.name] = true
+		if ci.fn != nil {
+			fe.usedFns[ci.fn] = true
+		} else if ci.iface {
+			fe.usedIfaces[ci.name] = true
+		}
 		return fr.applyContract(c, ci, st, args, recv, base)
 	}
 	if ci.fn != nil && fe.eng.inRepo(ci.fn) && fr.canInline(ci.fn) {
